@@ -6,3 +6,4 @@ for s in $(seq $a $b); do
   echo "seed=$s exit=$rc $(echo "$out" | grep -E "^\[$pid\] tier" | sed 's/.*evaluations/evaluations/')"
   [ $rc -ne 0 ] && echo "$out" | grep -E "signature|VIOLATION|HARNESS" | head -5
 done
+true
